@@ -31,6 +31,13 @@ pub fn run(args: &Args, rep: &mut Report) {
             Err(_) => continue,
         };
         let alpha = alphabet(&o);
+        // every fourth ECMAScript document runs without the option `ecma:strict` (what a host gets by default): the
+        // content sub-language generated here (declared variables, <assign>, <foreach>, conditions) means the same
+        let default_mode = dm == Dm::Ecma && d % 8 == 1;
+        crate::session::set_ecma_default_mode(default_mode);
+        if default_mode {
+            w.rep.count("documents_run_in_ecmascript_default_mode", 1);
+        }
         for _ in 0..4 {
             let len = 2 + rng.below(if args.thorough() { 20 } else { 10 });
             let path = guided_path(&f, &alpha, len, &mut rng);
@@ -40,5 +47,6 @@ pub fn run(args: &Args, rep: &mut Report) {
             }
         }
     }
+    crate::session::set_ecma_default_mode(false);
     w.flush_legality();
 }
